@@ -1366,7 +1366,13 @@ class Interp:
         pending: Optional[BaseException] = None
         try:
             try:
-                self.exec_block(ctx, s.body, env, fi)
+                # calls whose exceptions this interpreter does not model (a nested converter.structure) must not be "proved" never to
+                # reach a handler: interpreters that model such calls consult this counter and leave the subset
+                ctx.ghost["try_depth"] = ctx.ghost.get("try_depth", 0) + (1 if s.handlers else 0)
+                try:
+                    self.exec_block(ctx, s.body, env, fi)
+                finally:
+                    ctx.ghost["try_depth"] = ctx.ghost.get("try_depth", 0) - (1 if s.handlers else 0)
             except PyRaise as pr:
                 h = self._matching_handler(s.handlers, pr.exc)
                 if h is None:
